@@ -85,14 +85,24 @@ def search(ck, tier, seed):
                     x = pts.reshape([-1] + ev)
                     c = None if ctx is None else ctx.expand(x.shape[0], *ctx.shape[1:])
                     return d.log_prob(x, c) if c is not None else d.log_prob(x)
+            # integration box from the parameters just set: every coordinate's mean +- 9.5 standard deviations, step sigma_min / 8
+            if name == "StandardNormal":
+                mus, sds = torch.zeros(numel, dtype=torch.float64), torch.ones(numel, dtype=torch.float64)
+            elif name == "DiagonalNormal":
+                mus, sds = d.mean_.detach().reshape(-1).double(), torch.exp(d.log_std_.detach().reshape(-1).double())
+            else:
+                mus, sds = m_.reshape(-1), torch.exp(s_.reshape(-1))
+            lo_, hi_ = float((mus - 9.5 * sds).min()), float((mus + 9.5 * sds).max())
+            npts = int(min(1601, max(401, (hi_ - lo_) / (float(sds.min()) / 8.0)))) | 1
             r = attempt(logp, torch.zeros(3, numel, dtype=torch.float64))
             if r[0] != "ok" or list(r[1].shape) != [3]:
                 ck.finding("log_prob-fails:%s" % name, "event shape %s: %s" % (ev, r[1:] if r[0] != "ok" else list(r[1].shape)), case)
                 continue
             if numel == 1:
-                tot = integrate_1d(logp)
+                g1 = np.linspace(lo_, hi_, 8 * npts + 1)
+                tot = float(np.trapezoid(np.exp(logp(torch.tensor(g1, dtype=torch.float64)[:, None]).numpy()), g1))
             elif numel == 2:
-                tot = integrate_2d(logp)
+                tot = integrate_2d(logp, lo_, hi_, npts)
             else:
                 tot = None
             if tot is not None and abs(tot - 1) > 1e-5:
@@ -113,7 +123,7 @@ def search(ck, tier, seed):
                     ck.finding("mean:%s:shape" % name, "mean() shape %s, documented %s" % (list(mr[1].shape), want), case)
                 # expectation by quadrature in 1-D
                 if numel == 1:
-                    ex = float(np.trapezoid(grid1 * np.exp(logp(torch.tensor(grid1, dtype=torch.float64)[:, None]).numpy()), grid1))
+                    ex = float(np.trapezoid(g1 * np.exp(logp(torch.tensor(g1, dtype=torch.float64)[:, None]).numpy()), g1))
                     if abs(ex - float(mr[1].reshape(-1)[0])) > 1e-5:
                         ck.finding("mean:%s:wrong" % name, "mean() %r vs expectation %r" % (float(mr[1].reshape(-1)[0]), ex), case)
             if name != "DiagonalNormal":
@@ -136,6 +146,34 @@ def search(ck, tier, seed):
         tot = integrate_1d(logp) if F_ == 1 else integrate_2d(logp, -14, 14, 561)
         if abs(tot - 1) > 2e-5:
             ck.finding("normalisation:MADEMoG", "features %d integrates to %r" % (F_, tot), {"search": "mog", "features": F_})
+    # ---- MADE mixture: samples follow the density (1-D, several component counts; fixed seed, KS distance to the integrated density)
+    for K in (1, 2, 3):
+        torch.manual_seed(seed + 100 + K)
+        # float32: the mixture's sampler allocates float32 buffers (a float64 copy cannot sample; outside this property)
+        d = mixture.MADEMoG(1, 8, 2, num_blocks=1, num_mixture_components=K, custom_initialization=True).eval()
+        gg = torch.Generator(); gg.manual_seed(seed + K)
+        with torch.no_grad():
+            for prm in d.parameters():
+                prm.add_(torch.randn(prm.shape, generator=gg) * 0.6)
+        ctx = torch.randn(1, 2, generator=g, dtype=torch.float64).float()
+        ck.case(("mog-sampling", K), nontrivial=K > 1)
+        grid = torch.linspace(-40, 40, 160001, dtype=torch.float64)
+        with torch.no_grad():
+            dens = torch.exp(d.log_prob(grid[:, None].float(), ctx.expand(grid.shape[0], -1)).double())
+            torch.manual_seed(seed + K)
+            sm = attempt(d.sample, 20000, ctx)
+        if sm[0] != "ok":
+            ck.finding("sampling:MADEMoG:fails", "%s %s" % (sm[1], sm[2]), {"search": "mog-sampling", "K": K})
+            continue
+        smp = sm[1].reshape(-1).double().sort().values
+        cdf = torch.cumsum(dens, 0) * (grid[1] - grid[0])
+        emp = torch.arange(1, smp.numel() + 1, dtype=torch.float64) / smp.numel()
+        idx = torch.searchsorted(grid, smp).clamp(max=grid.numel() - 1)
+        ks = float((cdf[idx] - emp).abs().max())
+        if ks > 0.02:
+            ck.finding("sampling:MADEMoG:samples-do-not-follow-density",
+                       "%d mixture components: KS distance %.3f between 20000 samples and the integrated density" % (K, ks),
+                       {"search": "mog-sampling", "K": K, "seed": seed})
     # ---- uniform-box style priors
     bu = uniform.BoxUniform(low=torch.tensor([-1.0, 0.0]), high=torch.tensor([2.0, 4.0]))
     ck.case(("boxuniform",), nontrivial=True)
